@@ -4,6 +4,7 @@ package main
 // modify, assume the invariant, and at every back edge assert it again.
 
 import (
+	"os"
 	"fmt"
 	"go/types"
 	"sort"
@@ -104,6 +105,9 @@ func (u *Unit) loopEnter(st *State, lp *Loop) {
 		u.checkOwned(st, name, tag+".owned."+name+".entry", first)
 	}
 	eff := u.effectsOfBlocks(lp.fn, lp.blocks, map[*ssa.Function]bool{})
+	if os.Getenv("EBU_VERBOSE") != "" {
+		fmt.Fprintf(os.Stderr, "loop %s effects: all=%v heaps=%v\n", tag, eff.all, sortedKeys(eff.heaps))
+	}
 	// cells
 	var roots []ssa.Value
 	for r := range eff.roots {
@@ -180,7 +184,7 @@ func (u *Unit) loopEnter(st *State, lp *Loop) {
 	for _, ev := range u.eng.spec.Events {
 		hit := false
 		for n := range names {
-			if eventMatches(ev.Pattern, n) || (n == "lock:*" && hasPrefixAny(ev.Pattern, "lock:")) || (n == "unlock:*" && hasPrefixAny(ev.Pattern, "unlock:")) {
+			if eventMayMatch(ev.Pattern, n) || (n == "lock:*" && hasPrefixAny(ev.Pattern, "lock:")) || (n == "unlock:*" && hasPrefixAny(ev.Pattern, "unlock:")) {
 				hit = true
 			}
 		}
